@@ -18,14 +18,17 @@
 //	                     ImportKeyRings with a crypto suite and nil / overwrite / skip
 //	                     delegates), v2-backuper (keystore/v2/keystore.KeyBackuper), v1-to-v2
 //	                     (cmd/acra-keys/keys.MigrateV1toV2 -> ServerKeyStore.ImportKeyFileV1 from a
-//	                     real v1 directory)
+//	                     real v1 directory), acra-backup-cli (the acra-backup command built from the
+//	                     repository under test and run as a process on real directories: whole
+//	                     folder export / import; shallow histories only, see cli.go)
 //	x targets          = empty; "same" (target holds its own keys, one of them rotated, in the
 //	                     selected slots; v2-rings also with overwrite and skip delegates);
 //	                     "other" (keys of a third client, one rotated, and its own key in an
 //	                     unselected slot of the source). Targets have their own master keys.
-//	then tampering     = for source states of depth <= flipDepth: every single-byte xor 0x01
-//	                     (thorough: and 0x80) of the bundle and of the access key blob; for
-//	                     deeper states 16 equidistant positions of each; always: freshly
+//	then tampering     = for source states of depth <= flipDepth (quick 1, thorough 3): every
+//	                     single-byte xor 0x01 (thorough: and 0x80) of the bundle and of the
+//	                     access key blob; for deeper states 16 equidistant positions of each
+//	                     (same masks); always: freshly
 //	                     generated (wrong) access keys, and for v2 right-enc/wrong-sig and
 //	                     wrong-enc/right-sig.
 //
@@ -272,10 +275,10 @@ type options struct {
 var opt options
 
 // acra-backup-cli (a process per attempt, ~0.6 CPU s each on this VM): source states up to
-// cliDepth; up to cliFullDepth all three targets with 4 equidistant byte flips of bundle and
-// access key, deeper ones the empty target with one flip in the middle of the bundle; wrong
-// access keys always.
-var cliDepth, cliFullDepth int
+// cliDepth; all three targets up to cliTargetsDepth (deeper: the empty target); tampering
+// (3 bundle positions, 2 access key positions, wrong access keys) on the empty target up to
+// cliTamperDepth.
+var cliDepth, cliTargetsDepth, cliTamperDepth int
 
 type finding struct {
 	key, msg string
@@ -515,6 +518,9 @@ func runTuple(r *ev.Run, out *sink, src *source, t Tuple, b Bundle, pop []kslab.
 		}
 		r.Class(t.Path+"/"+cls, 1)
 		r.Distinct(strings.Join([]string{t.Path, t.Mode, t.Target, cls}, "|"))
+		if only != nil && only.Tamper != "" {
+			fmt.Printf("  %s -> %s (err=%v, target %s)\n", tt, cls, ierr, changedText(after != snap))
+		}
 		if after != snap {
 			// rebuild a pristine target (rare: only after a reported violation or an equivalent key blob)
 			tgt.Close()
@@ -531,9 +537,6 @@ func runTuple(r *ev.Run, out *sink, src *source, t Tuple, b Bundle, pop []kslab.
 		}
 		bb, equivalent := applyTamper(tt, b)
 		attempt(tt, bb, equivalent)
-		if only != nil && only.Tamper != "" && opt.trace {
-			fmt.Printf("  %s\n", tt)
-		}
 	}
 
 	// --- the good import
@@ -613,10 +616,10 @@ func main() {
 	opt.masks = []byte{0x01}
 	opt.sparse = 16
 	depth, flipDepth := 3, 1
-	cliDepth, cliFullDepth = 1, 0
+	cliDepth, cliTargetsDepth, cliTamperDepth = 1, 0, 0
 	if r.Thorough() {
-		depth, flipDepth = 4, 2
-		cliDepth, cliFullDepth = 2, 1
+		depth, flipDepth = 4, 3
+		cliDepth, cliTargetsDepth, cliTamperDepth = 2, 1, 1
 		opt.masks = []byte{0x01, 0x80}
 	}
 	if *depthFlag > 0 {
@@ -677,7 +680,7 @@ func main() {
 			if done < len(ss) {
 				r.Capped(fmt.Sprintf("%s: wall budget hit after %d of %d source states", path, done, len(ss)))
 			}
-			perPath[path] = map[string]int{"source_states": done, "history_depth": cliDepth, "full_target_and_flip_set_up_to_depth": cliFullDepth}
+			perPath[path] = map[string]int{"source_states": done, "history_depth": cliDepth, "all_targets_up_to_depth": cliTargetsDepth, "tampering_up_to_depth": cliTamperDepth}
 			fmt.Fprintf(os.Stderr, "path %s: %d source states done, t=%v\n", path, done, time.Since(t0).Round(time.Millisecond))
 			continue
 		}
@@ -689,13 +692,15 @@ func main() {
 		perPath[path] = map[string]int{"source_states": done}
 		fmt.Fprintf(os.Stderr, "path %s: %d source states done, t=%v\n", path, done, time.Since(t0).Round(time.Millisecond))
 	}
-	r.Set("bounds", map[string]interface{}{"history_depth": depth, "full_byte_flip_depth": flipDepth, "flip_masks": fmt.Sprintf("%x", opt.masks), "sparse_flip_positions": opt.sparse, "slots": len(universe), "clients": 2})
+	r.Set("bounds", map[string]interface{}{"history_depth": depth, "full_byte_flip_depth": flipDepth, "flip_masks": fmt.Sprintf("%x", opt.masks), "sparse_flip_positions": opt.sparse, "slots": len(universe), "clients": 2, "cli_history_depth": cliDepth})
 	r.Set("source_states", srcStats)
 	r.Set("per_path", perPath)
 	r.Rule("states = distinct (source canonical state, selection, mode, format path, target class) tuples, each executed once on the real code (source rebuilt by replaying the shortest history of its canonical state; canonical state = per slot generated count, surviving ordinals newest-first, current marker, read below the API); transitions = exports + import attempts (good and tampered) + verification reads; distinct_nontrivial = distinct (path, mode, selection class, target class, outcome) tuples plus distinct (path, mode, target, tamper outcome) tuples")
 	r.Assume("Themis is replaced by the pure-Go stand-in /verif/shim/gothemis (Secure Cell = AES-GCM: any altered byte of a sealed blob fails authentication, as with Themis)",
 		"v1 key stores use one key folder for private and public keys (kslab stores); the separate public folder variant of filesystem.KeyBackuper is not explored",
 		"source and target are driven sequentially; storage calls do not fail (C08)",
+		"acra-backup-cli: the binary is built by the check from the repository under test and run as a process; because a process costs ~0.6 CPU s on this VM only histories up to depth 1 (quick) / 2 (thorough) and 6 tamperings per tuple are run there",
+		"acra-keys export/import/migrate main() wiring (flag parsing, file permissions of the output files) is not driven; their library calls (KeyBackuper.Export/Import, MigrateV1toV2) are",
 		"access keys are excluded from the secret scan by definition; the scan looks for every private / symmetric key value ever generated in the source (also destroyed ones) raw, hex and base64 at every alignment")
 	r.Finish()
 }
